@@ -1,20 +1,52 @@
 /-
   Proofs/TieC08.lean — obligation over `Generated/CodeC08.lean`, the translation of the *current* source
-  of `aggregate.use_numba`: acceleration is chosen iff `dataiter.USE_NUMBA` and the column dtype is a
-  sub-dtype of exactly bool / datetime64 / floating / integer — the classes property C08 names as
-  eligible (and the ones the Numba kernel model covers).
+  of `aggregate.use_numba`.  With NumPy's sub-dtype facts as the interpretation (`subTruth`; note that
+  `timedelta64` is a sub-dtype of `integer`), acceleration is chosen exactly for boolean, integer, float,
+  date and datetime columns — the classes property C08 names as eligible and the ones the Numba kernel
+  model covers — and never for timedelta, string or object columns.
 -/
 import Generated.CodeC08
+import Model.Construct
 
 namespace DI.Tie.C08
 
-open DI.Py DI.Gen
+open DI.Py DI.Gen DI.Construct
 
 def sub (cls : String) : Term := Term.app "np.issubdtype" [Term.app ".dtype" [Term.sym "x"], Term.sym cls]
 
+/-- `np.issubdtype(x.dtype, ·)` for a column of class `c`, and `dataiter.USE_NUMBA = True`. -/
+def subTruth (c : DClass) : Term → Bool
+  | .sym "dataiter.USE_NUMBA" => true
+  | .app "np.issubdtype" [.app ".dtype" [.sym "x"], .sym "np.bool_"] => c == .bool
+  | .app "np.issubdtype" [.app ".dtype" [.sym "x"], .sym "np.datetime64"] => c == .date || c == .datetime
+  | .app "np.issubdtype" [.app ".dtype" [.sym "x"], .sym "np.floating"] => c == .float
+  | .app "np.issubdtype" [.app ".dtype" [.sym "x"], .sym "np.integer"] => c == .int || c == .timedelta
+  | .app "np.issubdtype" [.app ".dtype" [.sym "x"], .sym "np.timedelta64"] => c == .timedelta
+  | .app "np.issubdtype" [.app ".dtype" [.sym "x"], .sym "np.str_"] => c == .ustr
+  | .app "np.issubdtype" [.app ".dtype" [.sym "x"], .sym "np.object_"] => c == .object
+  | _ => false
+
+/-- the value of the returned Boolean expression `switch and (t1 or t2 or …) and not t`. -/
+def eligible (truth : Term → Bool) : Out → Option Bool
+  | .ret [] (.app "And" [u, .app "Or" xs, .app "not" [t]]) => some (truth u && xs.any truth && !truth t)
+  | _ => none
+
 /-- the eligibility test as written. -/
-theorem use_numba_eligibility (truth : Term → Bool) :
+theorem use_numba_shape (truth : Term → Bool) :
     aggregate_use_numba truth = Out.ret [] (Term.app "And" [Term.sym "dataiter.USE_NUMBA",
-      Term.app "Or" [sub "np.bool_", sub "np.datetime64", sub "np.floating", sub "np.integer"]]) := rfl
+      Term.app "Or" [sub "np.bool_", sub "np.datetime64", sub "np.floating", sub "np.integer"],
+      Term.app "not" [sub "np.timedelta64"]]) := rfl
+
+/-- **eligibility**: with the switch on, exactly boolean, integer, float, date and datetime columns take
+    the Numba path. -/
+theorem use_numba_eligibility (c : DClass) :
+    eligible (subTruth c) (aggregate_use_numba (subTruth c)) =
+      some (c == .bool || c == .int || c == .float || c == .date || c == .datetime) := by
+  cases c <;> simp [aggregate_use_numba, eligible, subTruth] <;> decide
+
+/-- with the switch off nothing takes the Numba path. -/
+theorem use_numba_off (truth : Term → Bool) (h : truth (Term.sym "dataiter.USE_NUMBA") = false) :
+    eligible truth (aggregate_use_numba truth) = some false := by
+  simp [aggregate_use_numba, eligible, h]
 
 end DI.Tie.C08
